@@ -20,48 +20,60 @@ namespace Log4rs.Reconfig
 /-! ### (a) -/
 
 structure RecInfo where
-  tid : Nat
   target : Target
   level : Level
   curAtBegin : Nat          -- tag of the configuration whose `set_config` returned last before the record began
+  window : List Nat := []   -- tags whose `set_config` returned while the record was being processed
   out : List Delivery := []
   ended : Bool := false
 
 structure TraceState where
   cur : Nat
-  recs : List RecInfo := []
+  recs : List RecInfo := []     -- record ids are positions: the k-th `begin` carries id k
   panicked : Bool := false
+  malformed : Bool := false
 
 def TraceState.feed (st : TraceState) : Obs → TraceState
-  | .begin tid t l => { st with recs := st.recs ++ [{ tid, target := t, level := l, curAtBegin := st.cur }] }
+  | .begin tid t l =>
+    if tid = st.recs.length then
+      { st with recs := st.recs ++ [{ target := t, level := l, curAtBegin := st.cur }] }
+    else { st with malformed := true }
   | .deliver tid tag a =>
-    { st with recs := st.recs.map (fun r => if r.tid = tid then { r with out := r.out ++ [(tag, a)] } else r) }
-  | .swapped tag => { st with cur := tag }
-  | .fin tid => { st with recs := st.recs.map (fun r => if r.tid = tid then { r with ended := true } else r) }
+    { st with recs := st.recs.modify tid (fun r => { r with out := r.out ++ [(tag, a)] }) }
+  | .swapped tag =>
+    { st with cur := tag,
+              recs := st.recs.map (fun r => if r.ended then r else { r with window := r.window ++ [tag] }) }
+  | .fin tid => { st with recs := st.recs.modify tid (fun r => { r with ended := true }) }
   | .panic _ => { st with panicked := true }
 
 def prescribedBy (c : MiniCfg) (t : Target) (l : Level) : List Delivery :=
   prescribed (mkSnapshot c) t l
 
+/-- routed entirely under ONE configuration, and one that was current at some moment between the
+record's begin and its end: the one in force when it began, or one stored while it was being
+processed (by another thread, or re-entrantly by one of its own appenders). With `strict` the
+window is ignored: for traces in which nothing can happen between "begin" and the load (the
+single-threaded scripted scenarios of the harness) the record must follow the configuration in
+force when it began. -/
+def recOk (cfgs : List MiniCfg) (strict : Bool) (r : RecInfo) : Bool :=
+  cfgs.any (fun c =>
+    (c.tag == r.curAtBegin || (!strict && r.window.contains c.tag)) && prescribedBy c r.target r.level == r.out)
+
+def specState (cfgs : List MiniCfg) (trace : List Obs) : TraceState :=
+  trace.foldl TraceState.feed { cur := ((cfgs.head?).map (·.tag)).getD 0 }
+
 /-- `none` = the property holds on this trace; `some clause` = the violated clause -/
-def specTrace (cfgs : List MiniCfg) (trace : List Obs) : Option String :=
-  match cfgs with
-  | [] => some "no-config"
-  | c0 :: _ =>
-    let st := trace.foldl TraceState.feed { cur := c0.tag }
-    if st.panicked then some "panic"
-    else
-      match st.recs.find? (fun r => !r.ended) with
-      | some r => some ("record " ++ toString r.tid ++ " did not complete")
-      | none =>
-        match st.recs.find? (fun r => !(cfgs.any (fun c => prescribedBy c r.target r.level == r.out))) with
-        | some r => some ("mixed: record " ++ toString r.tid ++ " matches no single configuration")
-        | none =>
-          match st.recs.find? (fun r =>
-              !(cfgs.any (fun c => c.tag == r.curAtBegin && prescribedBy c r.target r.level == r.out))) with
-          | some r => some ("stale: record " ++ toString r.tid ++ " began after set_config(" ++
-                        toString r.curAtBegin ++ ") returned but was not routed under it")
-          | none => none
+def specTrace (cfgs : List MiniCfg) (strict : Bool) (trace : List Obs) : Option String :=
+  let st := specState cfgs trace
+  if cfgs.isEmpty then some "no-config"
+  else if st.panicked then some "panic"
+  else if st.malformed then some "malformed trace"
+  else if st.recs.any (fun r => !r.ended) then some "incomplete: a record did not complete"
+  else if st.recs.any (fun r => !(cfgs.any (fun c => prescribedBy c r.target r.level == r.out))) then
+    some "mixed: a record matches no single configuration"
+  else if st.recs.any (fun r => !(recOk cfgs strict r)) then
+    some "stale: a record was routed under a configuration that was not current while it was processed"
+  else none
 
 /-- multi-thread stress: the *set* of distinct delivery lists seen for one probe by the logging
 threads must be a subset of what single configurations prescribe -/
@@ -137,7 +149,6 @@ structure PollObs where
 structure Ideal (Text : Type) where
   remM : Option Mtime        -- mtime of the last version that could be read (none: mtimes unavailable)
   remText : Text             -- its text
-  prevText : Option Text     -- text seen by the previous poll, if the file was readable then
   prev : PollObs
 
 section
@@ -145,6 +156,11 @@ variable {Text : Type} [DecidableEq Text] (parse : Text → Option (ConfigTag ×
 
 def untouched (p o : PollObs) : Bool :=
   o.action != .applied && o.active == p.active && o.rate == p.rate && o.alive == p.alive
+
+/-- the configuration and rate of a parsed text took effect (`set_config` was called) -/
+def appliedAs (p o : PollObs) (c : ConfigTag) (r : Option Rate) : Bool :=
+  o.action == .applied && o.active == c && o.alive == r.isSome &&
+  (match r with | some x => o.rate == x | none => o.rate == p.rate)
 
 /-- verdict for one poll (`none` = fine) and the observer's next state -/
 def specPoll (st : Ideal Text) (fv : FileView Text) (o : PollObs) : Option String × Ideal Text :=
@@ -155,12 +171,12 @@ def specPoll (st : Ideal Text) (fv : FileView Text) (o : PollObs) : Option Strin
     | some _, none => false
   let st' : Ideal Text :=
     match fv with
-    | .ok m t => if visible then { st with remM := st.remM.map (fun _ => m), remText := t, prevText := some t, prev := o }
-                 else { st with prevText := some t, prev := o }
-    | _ => { st with prevText := none, prev := o }
+    | .ok m t => if visible then { st with remM := st.remM.map (fun _ => m), remText := t, prev := o }
+                 else { st with prev := o }
+    | _ => { st with prev := o }
   let verdict : Option String :=
     if !p.alive then
-      (if o.action == .dead && o.active == p.active && !o.alive then none else some "dead-loop-acted")
+      (if o.action == .dead && o.active == p.active && o.rate == p.rate && !o.alive then none else some "dead-loop-acted")
     else if o.action == .dead then some "stopped-polling"
     else
       match fv with
@@ -170,13 +186,17 @@ def specPoll (st : Ideal Text) (fv : FileView Text) (o : PollObs) : Option Strin
         match parse t with
         | none => if untouched p o then none else some "bad-keeps-good-and-polls(unparsable)"
         | some (c, r) =>
-          if visible && t != st.remText then
-            (if o.active == c && o.alive == r.isSome && (match r with | some x => o.rate == x | none => true)
-             then none else some "changed-not-applied")
-          else if st.prevText == some t then
+          if t == st.remText then
+            -- the version last read is back / still there (no change, touch, reappearance):
+            -- nothing may happen to the logger, the loop goes on with the same rate
             (if untouched p o then none else some "unchanged-touched")
+          else if visible then
+            -- a changed, readable, parsable file whose mtime moved: it must be applied, now
+            (if appliedAs p o c r then none else some "changed-not-applied")
           else
-            (if (o.active == c || o.active == p.active) then none else some "wrong-config")
+            -- an edit that kept the remembered mtime: may be missed (then nothing happens at all)
+            -- or noticed (then it is applied properly)
+            (if untouched p o || appliedAs p o c r then none else some "same-mtime-edit-mishandled")
   (verdict, st')
 
 def specPolls : Ideal Text → Nat → List (FileView Text × PollObs) → Option (Nat × String)
@@ -193,30 +213,36 @@ def specHistory (m0 : Option Mtime) (text0 : Text) (init : PollObs)
   | none => some (0, "init-unparsable")
   | some (c, r) =>
     if init.active == c && init.alive == r.isSome && (match r with | some x => init.rate == x | none => true) then
-      specPolls parse { remM := m0, remText := text0, prevText := some text0, prev := init } 1 polls
+      specPolls parse { remM := m0, remText := text0, prev := init } 1 polls
     else some (0, "init-wrong")
 
+/-- does the initial observation show the configuration of version `v`? -/
+def fitsInit (init : PollObs) (v : FileView Text) : Bool :=
+  match v.text?.bind parse with
+  | some (c, r) => init.active == c && init.alive == r.isSome && (match r with | some x => init.rate == x | none => true)
+  | none => false
+
+/-- the history judged by an observer that remembers `mv`'s mtime and `tv`'s text -/
+def goInit (noMtime : Bool) (init : PollObs) (polls : List (FileView Text × PollObs))
+    (mv tv : FileView Text) : Option (Nat × String) :=
+  match tv.text? with
+  | some t => specPolls parse { remM := if noMtime then none else mv.mtime?, remText := t, prev := init } 1 polls
+  | none => some (0, "init-wrong")
+
 /-- the initialisation looked at the file twice and an edit may have landed in between (`v1`
-before, `v2` after): the initial configuration must be that of one of the two versions, and the
-observer remembers the version that was loaded (if the observation allows both, either) -/
+before, `v2` after). The initial configuration must be that of one of the two versions. Either
+version may be the one that was loaded, and the remembered mtime may be that version's own or the
+OLDER one (mtime taken before the read: the next poll re-examines the file and finds it unchanged).
+What is not admissible is the newer mtime with the older text: then the newer version is never
+examined. The history must be right for one admissible memory. -/
 def specHistory2 (noMtime : Bool) (v1 v2 : FileView Text) (init : PollObs)
     (polls : List (FileView Text × PollObs)) : Option (Nat × String) :=
-  let fits (v : FileView Text) : Bool :=
-    match v.text?.bind parse with
-    | some (c, r) => init.active == c && init.alive == r.isSome && (match r with | some x => init.rate == x | none => true)
-    | none => false
-  -- `mv` supplies the remembered mtime, `tv` the remembered (loaded) text
-  let go (mv tv : FileView Text) : Option (Nat × String) :=
-    match tv.text? with
-    | some t => specPolls parse { remM := if noMtime then none else mv.mtime?, remText := t, prevText := some t, prev := init } 1 polls
+  let cands := ([(v2, v2), (v1, v1), (v1, v2)] : List (FileView Text × FileView Text)).filter
+    (fun c => fitsInit parse init c.2)
+  if cands.any (fun c => (goInit parse noMtime init polls c.1 c.2).isNone) then none
+  else match cands.head? with
     | none => some (0, "init-wrong")
-  -- Either version may be the one that was loaded, and the remembered mtime may be that version's
-  -- own or the OLDER one (mtime taken before the read: the next poll re-examines the file and finds
-  -- it unchanged). What is not admissible is the newer mtime with the older text: then the newer
-  -- version is never examined. The history must be right for one admissible memory.
-  match [(v2, v2), (v1, v1), (v1, v2)].filter (fun c => fits c.2) with
-  | [] => some (0, "init-wrong")
-  | c :: cs => if (c :: cs).any (fun v => (go v.1 v.2).isNone) then none else go c.1 c.2
+    | some c => goInit parse noMtime init polls c.1 c.2
 
 end
 
@@ -299,7 +325,7 @@ def specThread (m1 : Mtime) (d1 : Doc) (m2 : Mtime) (d2 : Doc) (initActive : Con
     | none => some (0, "init-unparsable")
     | some (c, r) =>
       specThreadSteps
-        { id := { remM := some m, remText := d, prevText := some d,
+        { id := { remM := some m, remText := d,
                   prev := { action := .unchanged, active := c, rate := r.getD 0, alive := r.isSome } },
           cur := .ok m2 d2, rate := r } 1 steps
   match [(m2, d2), (m1, d1), (m1, d2)].filter (fun v => fits v.2) with
